@@ -14,7 +14,7 @@ type clientModel struct {
 	TX *types.Named // clientTransaction
 
 	Mux, Closed, Table, Agent, Conn, CloseCh, WG, RTO, MaxAttempts, CloseConn, Handler, Collector, Clock *types.Var
-	TxID, TxAttempt, TxCalls, TxH, TxStart, TxRTO, TxRaw                                                   *types.Var
+	TxID, TxAttempt, TxCalls, TxH, TxStart, TxRTO, TxRaw                                                 *types.Var
 
 	Start, Do, Indicate, Close, SetRTO, NewClient *ssa.Function
 	Callback                                      *ssa.Function // handleAgentCallback: the *Client method taking an Event
